@@ -181,6 +181,16 @@ Theorem C11_compare_task_mixed_refuted :
 Proof. exact compare_task_mixed_refuted. Qed.
 Print Assumptions C11_compare_task_mixed_refuted.
 
+(* ... and the cycle cannot be repaired without giving up one of the two pinned
+   behaviours (index order on indexed pairs; creation time + UID on mixed pairs,
+   as the upstream unit test TestCompareTask demands) *)
+Theorem C11_compare_task_no_swo_extension : forall lt : item -> item -> bool,
+  (forall l r x y, i_pidx l = Some x -> i_pidx r = Some y -> x <> y -> lt l r = (x <? y)) ->
+  (forall l r, mixed_pair l r -> lt l r = by_time_uid l r) ->
+  ~ swo_on (fun _ => True) lt.
+Proof. exact compare_task_no_swo_extension. Qed.
+Print Assumptions C11_compare_task_no_swo_extension.
+
 (* comparators of the shipped plugins (priority, gang, drf share, sla,
    proportion) are valid on every set *)
 Theorem C11_plugin_comparators_valid : forall kind, valid_on everywhere (real_cmp kind).
